@@ -336,10 +336,11 @@ func TestVerif_C21_Local(t *testing.T) {
 	rec := vstat.New(t, "C21", "local",
 		"real single-node Store; writer goroutine issuing a generated list of transfer transactions (acct_a -> acct_b, version counter in ver_a and ver_b) over tables of {5,50,400,1500} rows x padding {0,40,300} bytes; 3..7 (thorough ..14) backups per case in generated format {binary,delete,sql} x vacuum x compress x leader flag x destination {buffer,file,hooked writer that lets commits land and calls Store.Snapshot mid-copy, writer that fails after a generated fraction of the stream or 1..64 bytes before its end} x table list; row keys from negative through 0 to positive, a WITHOUT ROWID table, a rowid table with non-positive and sparse rowids; complete content compared; with forced raft snapshots every {never,20,60} entries; non-trivial = at least one successful backup was taken while the writer committed something between its start and end; distinct by (rows,pad,snap,backup list,first transfers)")
 	rapid.Check(t, func(rt *rapid.T) {
+		defer g8bRecoverInfra(rec, t)
 		c := c21Gen(rt)
 		dir, err := os.MkdirTemp("", "c21-")
 		if err != nil {
-			rt.Skip("tempdir")
+			g8bInfra("tempdir")
 		}
 		defer os.RemoveAll(dir)
 		n, err := g8bOpenSingle("", filepath.Join(dir, "node"), func(s *Store) {
@@ -350,7 +351,7 @@ func TestVerif_C21_Local(t *testing.T) {
 		})
 		if err != nil {
 			t.Logf("infrastructure: %v", err)
-			rt.Skip("store did not come up")
+			g8bInfra("store did not come up")
 		}
 		defer n.Close()
 		s := n.S
@@ -358,7 +359,7 @@ func TestVerif_C21_Local(t *testing.T) {
 		setup := c21Setup(c)
 		model, err := vsql.OpenMem()
 		if err != nil {
-			rt.Skip("model")
+			g8bInfra("model")
 		}
 		defer model.Close()
 		for _, st := range setup {
@@ -369,7 +370,7 @@ func TestVerif_C21_Local(t *testing.T) {
 		modelVer := 0
 		if _, _, err := g8bExec(s, true, setup...); err != nil {
 			t.Logf("infrastructure: setup: %v", err)
-			rt.Skip("setup failed")
+			g8bInfra("setup failed")
 		}
 
 		// writer
@@ -423,7 +424,7 @@ func TestVerif_C21_Local(t *testing.T) {
 			if b.ToFile {
 				f, err := os.CreateTemp(dir, "backup-")
 				if err != nil {
-					rt.Skip("tempfile")
+					g8bInfra("tempfile")
 				}
 				berr = s.Backup(context.Background(), b.req(), f)
 				f.Close()
